@@ -95,8 +95,9 @@ structure SourceShape where
   stmts : List String :=
     ["if w:=isRunning.Swap(true);w return errors.New", "defer isRunning.Store(false)", "return Job.Execute(ctx)"]
   flagType : String := "atomic.Bool"
-  /-- `&isolatedJob{Job: underlying}`: the flag starts false -/
-  ctorKeys : List String := ["Job"]
+  /-- `NewIsolatedJob(underlying)` is the single statement `return &isolatedJob{Job: underlying}`: the wrapper holds the job it was
+  handed (whatever that is — another wrapper included) and the flag starts false -/
+  ctorKeys : List String := ["Job=underlying", "param=underlying"]
   /-- nothing else touches the flag -/
   flagUses : List String := ["Execute:Swap", "Execute:Store"]
   numMethods : Nat := 1
